@@ -815,4 +815,133 @@ theorem filter_unique {α : Type} {p : α → Bool} {a : α} : ∀ {l : List α}
       simp [hpc]
       exact ih hn.2 hm' (fun b hb => hall b (by simp [hb])) hp
 
+/-! ### the statement list against a database that enforces foreign keys immediately -/
+
+/-- a row that exists when the flush starts and is not going to be deleted by it -/
+def Stable (status : List Status) (rows0 : List Nat) (y : Nat) : Prop :=
+  y ∈ rows0 ∧ statusOf status y ≠ .markedToDelete
+
+theorem applyWrites_append (g : Graph) : ∀ (a b : List Write) (rows : List Nat),
+    applyWrites g rows (a ++ b) = (applyWrites g rows a).bind (fun r => applyWrites g r b) := by
+  intro a
+  induction a with
+  | nil => intro b rows; simp [applyWrites]
+  | cons w a ih =>
+    intro b rows
+    simp only [List.cons_append, applyWrites]
+    cases applyWrite g rows w with
+    | none => simp
+    | some r => simp [ih]
+
+theorem stmtOf_insert {st : Status} {x y : Nat} (hp : Pending st) (h : stmtOf st x = .insert y) : st = .created := by
+  rcases hp with hp | hp | hp <;> subst hp <;> simp [stmtOf] at h ⊢
+
+theorem applyWrites_trace {g : Graph} {status : List Status} {pre : List Write} {s : St} {ws : List Write}
+    {rows0 : List Nat} (T : Trace g { status := status, out := pre } s ws)
+    (hrefs : ∀ x, ∀ r ∈ attrsToCheck g (statusOf status x) x,
+      statusOf status r.target = .created ∨ Stable status rows0 r.target) :
+    ∀ (todo done : List Write) (rows : List Nat), ws = done ++ todo →
+      (∀ y, Stable status rows0 y ∨ Write.insert y ∈ done → y ∈ rows) →
+      ∃ rows', applyWrites g rows todo = some rows' ∧ (∀ y, Stable status rows0 y ∨ Write.insert y ∈ ws → y ∈ rows') := by
+  intro todo
+  induction todo with
+  | nil =>
+    intro done rows hws hinv
+    simp at hws; subst hws
+    exact ⟨rows, rfl, hinv⟩
+  | cons w todo ih =>
+    intro done rows hws hinv
+    have hw : w ∈ ws := by rw [hws]; simp
+    obtain ⟨x, hwx, hp, _⟩ := T.writes w hw
+    simp only at hwx hp
+    -- every reference the statement of `x` carries points to an existing row
+    have htargets : ∀ r ∈ attrsToCheck g (statusOf status x) x, r.target ∈ rows := by
+      intro r hr
+      rcases hrefs x r hr with hc | hs
+      · exact hinv _ (Or.inr (T.ordered done w todo hws x hwx r hr hc))
+      · exact hinv _ (Or.inl hs)
+    have hnext : ∀ rows1, applyWrite g rows w = some rows1 →
+        (∀ y, Stable status rows0 y ∨ Write.insert y ∈ done ++ [w] → y ∈ rows1) →
+        ∃ rows', applyWrites g rows (w :: todo) = some rows' ∧ (∀ y, Stable status rows0 y ∨ Write.insert y ∈ ws → y ∈ rows') := by
+      intro rows1 h1 hinv1
+      simp only [applyWrites, h1]
+      exact ih (done ++ [w]) rows1 (by rw [hws]; simp) hinv1
+    rcases hp with hc | hm | hd
+    · -- INSERT
+      have hw' : w = .insert x := by rw [hwx, hc]; rfl
+      apply hnext (x :: rows)
+      · rw [hw']; simp only [applyWrite]
+        have : (refsOf g x).all (fun r => decide (r.target ∈ rows)) = true := by
+          rw [List.all_eq_true]; intro r hr
+          have := htargets r (by rw [hc]; exact hr)
+          simpa using this
+        simp [this]
+      · intro y hy
+        rcases hy with hy | hy
+        · exact List.mem_cons_of_mem _ (hinv y (Or.inl hy))
+        · rcases List.mem_append.mp hy with hy | hy
+          · exact List.mem_cons_of_mem _ (hinv y (Or.inr hy))
+          · simp [hw'] at hy; subst hy; simp
+    · -- UPDATE
+      have hw' : w = .update x := by rw [hwx, hm]; rfl
+      apply hnext rows
+      · rw [hw']; simp only [applyWrite]
+        have : ((refsOf g x).filter (·.dirty)).all (fun r => decide (r.target ∈ rows)) = true := by
+          rw [List.all_eq_true]; intro r hr
+          have := htargets r (by rw [hm]; exact hr)
+          simpa using this
+        simp [this]
+      · intro y hy
+        rcases hy with hy | hy
+        · exact hinv y (Or.inl hy)
+        · rcases List.mem_append.mp hy with hy | hy
+          · exact hinv y (Or.inr hy)
+          · simp [hw'] at hy
+    · -- DELETE
+      have hw' : w = .delete x := by rw [hwx, hd]; rfl
+      apply hnext (rows.filter (· ≠ x))
+      · rw [hw']; simp only [applyWrite]
+      · intro y hy
+        have hyx : y ≠ x := by
+          rcases hy with hy | hy
+          · intro e; subst e; exact hy.2 hd
+          · have hy' : Write.insert y ∈ ws := by
+              rw [hws]
+              rcases List.mem_append.mp hy with hy | hy
+              · simp [hy]
+              · simp [hw'] at hy
+            obtain ⟨z, hz, hpz, _⟩ := T.writes _ hy'
+            simp only at hz hpz
+            have : z = y := by
+              have := congrArg Write.obj? hz
+              simpa [stmtOf_obj, Write.obj?] using this.symm
+            subst this
+            have := stmtOf_insert hpz hz.symm
+            intro e; subst e; rw [hd] at this; simp at this
+        have hyr : y ∈ rows := by
+          rcases hy with hy | hy
+          · exact hinv y (Or.inl hy)
+          · rcases List.mem_append.mp hy with hy | hy
+            · exact hinv y (Or.inr hy)
+            · simp [hw'] at hy
+        simp [hyr, hyx]
+
+theorem applyWrites_unlinks (g : Graph) (rows : List Nat) : ∀ (l : List (Nat × Nat)),
+    applyWrites g rows (l.map (fun p => Write.unlink p.1 p.2)) = some rows := by
+  intro l
+  induction l with
+  | nil => rfl
+  | cons p l ih => simp [applyWrites, applyWrite, ih]
+
+theorem applyWrites_links (g : Graph) (rows : List Nat) : ∀ (l : List (Nat × Nat)),
+    (∀ p ∈ l, p.1 ∈ rows ∧ p.2 ∈ rows) → applyWrites g rows (l.map (fun p => Write.link p.1 p.2)) = some rows := by
+  intro l
+  induction l with
+  | nil => intro _; rfl
+  | cons p l ih =>
+    intro h
+    have hp := h p (by simp)
+    simp [applyWrites, applyWrite, hp.1, hp.2]
+    exact ih (fun q hq => h q (by simp [hq]))
+
 end PonyVerif.Model.SaveOrder
